@@ -401,8 +401,14 @@ def row_rec(ctx):
                        why='kernel writes %s at row [%s], expected row i + offset + 1'
                            % (p.name, rk))
             stored = set()
-            for rk, idx, node in p.load_log:
-                ok = rk in cands_j or rk in cands_j1
+            for kind, rk, idx, node in p.events:
+                if kind == 'store':
+                    stored.add((rk, idx))
+                    continue
+                if kind == 'view':
+                    ok = rk in cands_j or rk in cands_j1
+                else:
+                    ok = rk in cands_j or (rk in cands_j1 and (rk, idx) in stored)
                 ctx.ob('ROW-REC', ok, None, 'load from %s at row j or j+1' % p.name, f=f,
                        node=node, key='load-%s-%s-%s' % (role, idx, wa),
                        why='kernel reads %s at row [%s], expected i + offset (or the row '
